@@ -249,11 +249,27 @@ impl Monitor for C04 {
             ("corpus", tier.pick(400_000, 8_000_000)),
             ("api", tier.pick(400_000, 8_000_000)),
             ("big", tier.pick(30_000, 1_500_000)),
+            ("bytesweep", tier.pick(5_000, 300_000)),
+            ("wordsweep", tier.pick(64, 4_000)),
         ]
     }
 
     fn run_case(&mut self, engine: &str, idx: u64, rng: &mut Prng, rep: &mut Report) {
         match engine {
+            "wordsweep" => {
+                gen::wordsweep(rng, |c| {
+                    self.pair(rep, c, Family::Sliced, Family::Headers);
+                    self.pair(rep, c, Family::LaxSliced, Family::LaxHeaders);
+                });
+                rep.count("wordsweeps");
+            }
+            "bytesweep" => {
+                for c in gen::bytesweep(rng) {
+                    rep.count("bytesweep_cases");
+                    self.pair(rep, &c, Family::Sliced, Family::Headers);
+                    self.pair(rep, &c, Family::LaxSliced, Family::LaxHeaders);
+                }
+            }
             "api" => {
                 let mut o = if rng.bool() { GenOpts::clean() } else { GenOpts::hostile() };
                 o.start = gen::StartSel::Eth;
